@@ -369,20 +369,40 @@ def q4(run: Run, m: Master):
             ok = False
     # start / end inside the loop
     start = end = None
+    # integer polynomials over the loop index, the step and N: any spelling of
+    # idx*step and min((idx+1)*step, N) - e.g. min(start + step, N) - is accepted
+    from .cmodel import Poly
+
+    def poly(e, env):
+        if isinstance(e, ast.Constant) and isinstance(e.value, int) and \
+                not isinstance(e.value, bool):
+            return Poly.const(e.value)
+        if isinstance(e, ast.Name):
+            return env.get(e.id, Poly.sym(e.id))
+        if isinstance(e, ast.BinOp) and isinstance(e.op, (ast.Add, ast.Sub, ast.Mult)):
+            a_, b_ = poly(e.left, env), poly(e.right, env)
+            if a_ is None or b_ is None:
+                return None
+            return a_ + b_ if isinstance(e.op, ast.Add) else \
+                a_ - b_ if isinstance(e.op, ast.Sub) else a_ * b_
+        return None
+    want_start = Poly.sym(idx) * Poly.sym(step) if idx and step else None
+    penv = {}
     for nme, vals in inner.items():
         for v in vals:
-            nv = _norm(v)
-            if nv in (("mul", ("name", idx), ("name", step)),
-                      ("mul", ("name", step), ("name", idx))):
+            pv = poly(v, penv)
+            if want_start is not None and pv is not None and pv == want_start:
                 start = nme
-            if nv[0] == "min" and len(nv) == 3:
-                a, b = nv[1], nv[2]
-                for p, q in ((a, b), (b, a)):
-                    if q == ("name", N) and p in (
-                            ("mul", ("add", ("name", idx), ("const", 1)), ("name", step)),
-                            ("mul", ("name", step), ("add", ("name", idx), ("const", 1))),
-                            ("mul", ("add", ("const", 1), ("name", idx)), ("name", step))):
-                        end = nme
+                penv[nme] = pv
+    for nme, vals in inner.items():
+        for v in vals:
+            if isinstance(v, ast.Call) and isinstance(v.func, ast.Name) and \
+                    v.func.id == "min" and len(v.args) == 2 and want_start is not None:
+                for p_, q_ in ((v.args[0], v.args[1]), (v.args[1], v.args[0])):
+                    if isinstance(q_, ast.Name) and q_.id == N:
+                        pp_ = poly(p_, penv)
+                        if pp_ is not None and pp_ == want_start + Poly.sym(step):
+                            end = nme
     if start is None:
         bad("start", f"chunk start is not `{idx}*{step}`", sl)
         ok = False
